@@ -113,6 +113,8 @@ struct Conn {
 	uint64_t req_serial = 0, resp_serial = 0, ev_serial = 0;
 	uint64_t n_req_delivered = 0, n_resp_delivered = 0, n_ev_delivered = 0;
 	bool client_gone = false;               // client disconnected, died, or saw a disconnect error
+	int64_t client_closed_tick = -1;        // server tick count when the client's end was really closed (disconnect returned / process died)
+	int gone_ticks = 0;                     // server ticks since then during which nothing excused the server from dropping the connection
 	bool server_gone = false;
 	int fc = 0; uint64_t fc_changes = 0;
 	bool fc_changing = false;
@@ -261,6 +263,7 @@ static void server_send(Conn &c, int dir, uint32_t len, bool use_iov)
 	memcpy(heap, buf.data(), len);
 	c.fl_out = true; c.fl_out_m = m; c.fl_out_taken = false;
 	ssize_t r;
+	if (dir == 2) use_iov = (m.serial & 1) != 0;     // every other event goes through qb_ipcs_event_sendv
 	if (use_iov && len > 4) {
 		struct iovec iov[2];
 		iov[0].iov_base = heap; iov[0].iov_len = len / 2;
@@ -608,6 +611,21 @@ static void tick(void *)
 			}
 			G.held_refs.erase(G.held_refs.begin() + (long)i);
 		} else i++;
+	}
+	// C03 / C04: a client whose end is closed is noticed while the service keeps running: closed and destroyed follow within a
+	// bounded number of loop iterations (every tick is at least one), unless the application holds a reference, asked for
+	// the closed callback to be retried, or the service is being destroyed anyway
+	if ((which == 3 || which == 4) && !G.svc_destroyed && G.shutdown_tick < 0) {
+		for (size_t i = 0; i < G.conns.size() && !failed(); i++) {
+			Conn &c = G.conns[i];
+			if (!c.accept_ok || !c.created || c.destroyed || c.client < 0 || c.client_closed_tick < 0) continue;
+			if (c.app_refs > 0 || c.closed_retries_left > 0) { c.gone_ticks = 0; continue; }
+			bool held = false;
+			for (size_t h = 0; h < G.held_refs.size(); h++) if (G.held_refs[h].first == c.sc) held = true;
+			if (held) { c.gone_ticks = 0; continue; }
+			if (++c.gone_ticks > 60)
+				VIOL(which, "closed-client-not-noticed", "qb_ipcs_dispatch_connection_request", "connection %d: its client's end has been closed for %d server ticks (closed callback calls %d) and connection_destroyed has not run, although the service is running and nothing holds the connection", c.id, c.gone_ticks, c.closed_calls);
+		}
 	}
 	bool all = true, scripts = true;
 	for (int k = 0; k < G.nclients; k++) {
@@ -966,6 +984,7 @@ static void client_main(void *arg)
 			{
 				bool dead_before = G.server_dead;
 				qb_ipcc_disconnect(k.cc);
+				if (k.conn && k.conn->client_closed_tick < 0) k.conn->client_closed_tick = G.ticks;
 				k.cc = NULL; k.conn = NULL;
 				check_client_cleanup(k, dead_before);
 			}
@@ -1011,6 +1030,7 @@ static void client_main(void *arg)
 		if (k.conn) k.conn->client_gone = true;
 		bool dead_before = G.server_dead;
 		qb_ipcc_disconnect(k.cc);
+		if (k.conn && k.conn->client_closed_tick < 0) k.conn->client_closed_tick = G.ticks;
 		k.cc = NULL;
 		check_client_cleanup(k, dead_before);
 	}
@@ -1194,7 +1214,7 @@ static void acc_hook(const void *, int, int, int, int, size_t)
 static void on_proc_death(int spid)
 {
 	if (spid == G.server_spid) { G.server_dead = true; if (G.server_death_ns < 0) G.server_death_ns = now_ns(); count(p_server_died); for (size_t i = 0; i < G.conns.size(); i++) G.conns[i].server_gone = true; }
-	for (int k = 0; k < G.nclients; k++) if (G.cl[k].spid == spid) { G.cl[k].dead = true; count(p_client_died); if (G.cl[k].conn) G.cl[k].conn->client_gone = true; }
+	for (int k = 0; k < G.nclients; k++) if (G.cl[k].spid == spid) { G.cl[k].dead = true; count(p_client_died); if (G.cl[k].conn) { G.cl[k].conn->client_gone = true; if (G.cl[k].conn->client_closed_tick < 0) G.cl[k].conn->client_closed_tick = G.ticks; } }
 	count(p_kill_fired);
 	// a process that died inside libqb leaves that library's static state (signal pipe, ...) behind in this OS process
 	request_recycle();
